@@ -48,16 +48,19 @@ Definition write_multiple_from {A} (start : N) (values : list A) : outcome req_e
   if 65535 <? n then Err ECountTooBigForU16
   else r <- of_range (try_from start n) ;; Ok (r, values).
 
-(* The user builds the range with AddressRange::try_from and calls Channel::read_*, which applies
-   of_read_bits / of_read_registers before the request is queued (an error is returned by `?`
-   and nothing reaches the task); write_single_* take the Indexed value as is; write_multiple_*
-   take a WriteMultiple built by WriteMultiple::from. *)
+(* Channel::read_* take an AddressRange by value. Its fields are public (and deserializable), so
+   the (start, count) pair is ARBITRARY in u16 x u16: it may come from AddressRange::try_from or from
+   a struct literal. of_read_bits / of_read_registers (limited_count) validate it and apply the
+   per-type limit before the request is queued (an error is returned by `?` and nothing reaches
+   the task). A user who calls try_from first either gets the same pair back or the same error.
+   write_single_* take the Indexed value as is; write_multiple_* take a WriteMultiple, whose
+   fields are crate-private, so it was built by WriteMultiple::from. *)
 Definition build (c : call) : outcome req_err request :=
   match c with
-  | CReadCoils s n => r <- of_range (try_from s n) ;; r' <- of_range (of_read_bits r) ;; Ok (RReadCoils r')
-  | CReadDiscreteInputs s n => r <- of_range (try_from s n) ;; r' <- of_range (of_read_bits r) ;; Ok (RReadDiscreteInputs r')
-  | CReadHoldingRegisters s n => r <- of_range (try_from s n) ;; r' <- of_range (of_read_registers r) ;; Ok (RReadHoldingRegisters r')
-  | CReadInputRegisters s n => r <- of_range (try_from s n) ;; r' <- of_range (of_read_registers r) ;; Ok (RReadInputRegisters r')
+  | CReadCoils s n => r <- of_range (of_read_bits (s, n)) ;; Ok (RReadCoils r)
+  | CReadDiscreteInputs s n => r <- of_range (of_read_bits (s, n)) ;; Ok (RReadDiscreteInputs r)
+  | CReadHoldingRegisters s n => r <- of_range (of_read_registers (s, n)) ;; Ok (RReadHoldingRegisters r)
+  | CReadInputRegisters s n => r <- of_range (of_read_registers (s, n)) ;; Ok (RReadInputRegisters r)
   | CWriteSingleCoil i v => Ok (RWriteSingleCoil i v)
   | CWriteSingleRegister i v => Ok (RWriteSingleRegister i v)
   | CWriteMultipleCoils s vs => '(r, vs') <- write_multiple_from s vs ;; Ok (RWriteMultipleCoils r vs')
